@@ -54,6 +54,16 @@ pub broadcast proof fn axiom_vlex_u8_slice_len(s: &[u8])
 '''
 PRELUDE_MODS = ('pub mod internal { pub use super::{CallbackResult, CallbackRetVal, LexerInternal}; pub struct SkipResult; pub trait SkipRetVal {} }\n')
 
+SKIP_FN_RE = r"pub fn skip<'source, Token: Logos<'source>>\(_: &mut Lexer<'source, Token>\) -> Skip \{\s*Skip\s*\}"
+
+def skip_fn(repo):
+    """the runtime's `logos::skip` callback (src/lib.rs), copied; its unnamed parameter gets a name and the contract `lexer unchanged`"""
+    src = open(os.path.join(repo, 'src', 'lib.rs')).read()
+    m = re.search(SKIP_FN_RE, src)
+    if not m: raise lexgen.LexGenError('src/lib.rs: fn skip not found in the expected shape')
+    text = m.group(0).replace('(_: &mut', '(lexer: &mut').replace('-> Skip {', '-> (r: Skip)\n    ensures *final(lexer) == *old(lexer),\n{')
+    return text + '\n'
+
 def build_prelude(repo, work):
     """the V-src unit (default configuration), extracted from /repo now; returns (text without the closing lines, notes)"""
     vs = _load_vsrc()
@@ -69,7 +79,8 @@ def build_prelude(repo, work):
     k = text.rindex('} // verus!')
     text = text[:k]
     a = text.index('verus! {')
-    text = text[:a] + PRELUDE_HEAD + 'verus! {\n' + PRELUDE_MODS + PRELUDE_AXIOMS + text[a + len('verus! {'):]
+    text = text[:a] + PRELUDE_HEAD + 'verus! {\n' + PRELUDE_MODS + PRELUDE_AXIOMS + skip_fn(repo) + text[a + len('verus! {'):]
+    notes.append('prelude: `pub fn skip` copied from src/lib.rs; its parameter `_` is named `lexer` (Verus: patterns unsupported) and it carries `ensures *lexer unchanged`')
     text = text.replace('#![allow(', '#![allow(non_camel_case_types, non_upper_case_globals, unreachable_code, unused_assignments, ', 1)
     return text, notes, vs, meta
 
@@ -179,8 +190,14 @@ def prepare(repo, work, codegens):
 def run(defs, codegens, repo, work, canaries=(), jobs=14, only=None, canary_defs=None, canaries_full_for=()):
     """-> dict(results=[...], prelude_notes, error=None|str).  canaries: fn kinds ('lex_body','root','all')"""
     out = dict(results=[], canary_results=[], prelude_notes=[], error=None)
+    # generated units live in a directory of their own per repository path (concurrent runs against scratch copies must not
+    # overwrite each other's files); the cargo target directories stay in `work` (lexgen.build_cli keys them by path too)
+    import hashlib
+    build_work = work
+    work = os.path.join(work, 'vlex-' + hashlib.sha1(os.path.realpath(repo).encode()).hexdigest()[:8])
+    os.makedirs(work, exist_ok=True)
     try:
-        clis = prepare(repo, work, codegens)
+        clis = prepare(repo, build_work, codegens)
         prelude, notes, vs, pmeta = build_prelude(repo, work)
     except (lexgen.LexGenError, extract.ExtractError) as e:
         out['error'] = str(e); return out
